@@ -118,7 +118,7 @@ def handler_decision(n: int, lim_n: int, mode: int, falsy: int) -> bool:
         ctx.mark('within-limit')
         ok = ok and reads == ['/data/f'] and isinstance(recorded['file_content'], b64.Encoded)
     # restore
-    fs.files, fs.sizes, fs.opens = [], [], []
+    fs.files, fs.sizes, fs.mtimes, fs.opens = [], [], [], []
     if is_input:
         out = h.restore_input_from_recording(recorded, args, kwargs)
         ok = ok and out == '/data/f' and fs.find('/data/f') >= 0
@@ -227,7 +227,7 @@ def through_recorder(n: int, lim_n: int, by_keyword: bool) -> bool:
     above = n > lim_n * 1048576
     reads_rec = [p for p, m in fs.opens if 'r' in m]
     # replay on a machine where the input file does not exist
-    fs.files, fs.sizes, fs.opens = [], [], []
+    fs.files, fs.sizes, fs.mtimes, fs.opens = [], [], [], []
     del seen[:]
     pb = tr.play(rid, lambda recording: Svc().execute())
     handler = OutputInterceptionFileDataHandler(1, 'path', lim)
@@ -411,3 +411,58 @@ def extra_obligations(tier, src_root, excluded):
                 'message': 'placeholder is a valid base64 text: a file whose encoding equals it would be mistaken for '
                            'the placeholder' if res == 'sat' else res})
     return out
+
+
+def validate_models():
+    """base64 / file handling on ACTUAL bytes is outside what the solver decides (contract model); this concrete
+    validator pushes real files of boundary sizes through the real handlers (real os / base64) and compares bytes.
+    A mismatch is a concrete C20 counterexample on the real code and is reported as a violation found by testing."""
+    import subprocess
+    import sys
+    import json
+    code = r'''
+import sys, json, os, tempfile, shutil
+sys.path.insert(0, %r); sys.path.insert(0, %r)
+import logging; logging.disable(logging.CRITICAL)
+from playback.interception.files.input_file_interception import InputInterceptionFileDataHandler
+from playback.interception.files.output_file_interception import OutputInterceptionFileDataHandler
+from playback.interception.files.file_interception import FileInterception
+M = 1048576
+bad = []; vec = 0
+d = tempfile.mkdtemp(prefix='pbsym-c20v-')
+try:
+    for n, lim in ((0, 1), (1, 1), (3, 1), (M - 1, 1), (M, 1), (M + 1, 1), (M + 1, 2), (2 * M + 5, 3), (3 * M, 3), (3 * M + 1, 3)):
+        for contents in ('pattern', 'placeholder-text', 'newlines'):
+            base = {'pattern': bytes(bytearray((i * 7 + 3) %% 256 for i in range(4099))),
+                    'placeholder-text': FileInterception.ABOVE_LIMIT_CONTENT, 'newlines': b'\\n\\r\\n\\x00'}[contents]
+            data = (base * (n // len(base) + 1))[:n]
+            path = os.path.join(d, 'f')
+            open(path, 'wb').write(data)
+            above = n > lim * M
+            for H, is_in in ((InputInterceptionFileDataHandler, True), (OutputInterceptionFileDataHandler, False)):
+                vec += 1
+                h = H(0, 'path', lim)
+                rec = h.prepare_input_for_recording('k', None, (path,), {}) if is_in else h.prepare_output_for_recording('k', (path,), {})
+                if is_in:
+                    os.remove(path)
+                    h.restore_input_from_recording(rec, (path,), {})
+                    got = open(path, 'rb').read()
+                else:
+                    got = h.restore_output_from_recording(rec).file_content
+                want = FileInterception.ABOVE_LIMIT_CONTENT if above else data
+                if got != want:
+                    bad.append({'size': n, 'limit_mb': lim, 'content': contents, 'input_handler': is_in, 'restored_len': len(got)})
+finally:
+    shutil.rmtree(d, ignore_errors=True)
+print('@@' + json.dumps({'vectors': vec, 'bad': bad[:4], 'n_bad': len(bad)}))
+''' % (os.environ.get('PB_SRC', '/repo'), os.path.dirname(os.path.dirname(os.path.abspath(__file__))))
+    p = subprocess.run([sys.executable, '-c', code], stdout=subprocess.PIPE, stderr=subprocess.PIPE, timeout=600)
+    out = p.stdout.decode()
+    if '@@' not in out:
+        return [{'name': 'real file handlers on boundary sizes', 'vectors': 0, 'differences': -1, 'error': p.stderr.decode()[-400:]}]
+    d = json.loads(out[out.index('@@') + 2:])
+    res = {'name': 'real os/base64 file handlers: bytes restored identically for sizes around the limit and around 1 MiB',
+           'vectors': d['vectors'], 'differences': d['n_bad'], 'error': str(d['bad'])[:300]}
+    if d['n_bad']:
+        res['violation'] = d['bad'][0]
+    return [res]
